@@ -348,6 +348,23 @@ func c06PFCP(r *Run) {
 			return
 		}
 		r.Skel(fmt.Sprintf("round:%d/%d", accepted, np))
+		// a modification that asks for the session's address again (Create PDR with
+		// CHV4) and is then refused half-way (Remove PDR of an unknown rule): the
+		// session keeps its address, nobody else may be given it
+		for _, s := range r.LiveSessions() {
+			if len(s.PDRs) < 2 || !s.PDRs[1].UEIPAlloc || r.Ch.Choose(3, "refused-mod-asking-for-address") != 1 {
+				continue
+			}
+			extra := *s.PDRs[1]
+			extra.ID, extra.Precedence, extra.GotUEIP = 50, 100, nil
+			mr := s.Peer.Modify(s, &ModSpec{Tag: "cP:chv4+rP:unknown", CreatePDR: []*PDRSpec{&extra}, RemovePDR: []uint16{999}})
+			if mr.Accepted || mr.Rx == nil {
+				r.Inconclusive++ // the model no longer knows the session's rules
+				return
+			}
+			r.Probe("modification-asking-for-address-refused-half-way")
+			r.Skel("refused-mod-chv4")
+		}
 		// release some
 		for _, s := range r.LiveSessions() {
 			if r.Ch.Choose(2, "release") == 1 {
